@@ -1461,7 +1461,10 @@ class RlWriter:
         if not href:
             log.warning("no link target specified")
             if not obj.children:
-                return []
+                if not obj.target:
+                    return []
+                # nothing to link to (no wiki database): the link still says its target
+                return [self.formatter.style_text(urllib.parse.unquote(obj.target))]
         else:
             quote_idx = href.find('"')
             if quote_idx > -1:
